@@ -243,13 +243,18 @@ def run_book(ctx, bi):
 
 
 DAYS = [dt.datetime(2024, 1, 14), dt.datetime(2024, 1, 15), dt.datetime(2024, 1, 16), dt.datetime(2024, 2, 1), dt.datetime(2023, 12, 31)]
+# the first weeks of the calendar (serial numbers 2-61, around the day Excel's calendar has and the real one has not)
+EARLY_DAYS = [dt.datetime(1900, 1, 5), dt.datetime(1900, 2, 10), dt.datetime(1900, 2, 27), dt.datetime(1900, 2, 28), dt.datetime(1900, 3, 1), dt.datetime(1900, 3, 2)]
 DATE_CRITS = ['G1', 'G2', '"={d}"', '">{d}"', '"<{d}"', '">={d}"', '"<={d}"', '"<>{d}"', '"{d}"', '"<>"&"{d}"', '">="&"{d}"',
               # assembled with & from a DATE cell: the text form of a date is its serial number
               '">="&G1', '"<"&G1', '">"&G1', '"<="&G1', '"<>"&G1', '"="&G1']
 
 
+_EARLY = [False]
+
+
 def moment(rng):
-    d = rng.choice(DAYS)
+    d = rng.choice(DAYS if not _EARLY[0] else EARLY_DAYS)
     if rng.random() < 0.55:
         return d + dt.timedelta(hours=rng.randrange(0, 24), minutes=rng.choice([0, 30, 59]), seconds=rng.choice([0, 0, 1, 59]))
     return d
@@ -268,18 +273,20 @@ def run_dates(ctx, bi):
     """date-time cells (with and without a time part) in the criteria range, the criterion a date cell handed over as a plain value or
     a date written year-month-day after an operator: a cell meets '=' only when it is that very moment"""
     r, rng = ctx.r, ctx.rng
+    _EARLY[0] = (bi % 3 == 2)          # every third book lives in the first weeks of 1900
+    days = EARLY_DAYS if _EARLY[0] else DAYS
     cells = {}
     for row in range(1, 9):
         v = date_cell(rng)
         if v is not None:
             cells[f'A{row}'] = v
         cells[f'B{row}'] = rng.randrange(1, 50)
-    cells['G1'] = rng.choice(DAYS)
+    cells['G1'] = rng.choice(days)
     cells['G2'] = moment(rng)
     forms = []
     for i in range(40):
         def crit():
-            return rng.choice(DATE_CRITS).format(d=rng.choice(DAYS).strftime('%Y-%m-%d'))
+            return rng.choice(DATE_CRITS).format(d=rng.choice(days).strftime('%Y-%m-%d'))
         fn = rng.choice(['COUNTIFS', 'COUNTIFS2', 'SUMIF', 'SUMIFS', 'SUMIFS2', 'AVERAGEIFS'])
         f = {'COUNTIFS': f'=COUNTIFS(A1:A8,{crit()})', 'COUNTIFS2': f'=COUNTIFS(A1:A8,{crit()},B1:B8,">10")', 'SUMIF': f'=SUMIF(A1:A8,{crit()},B1:B8)',
              'SUMIFS': f'=SUMIFS(B1:B8,A1:A8,{crit()})', 'SUMIFS2': f'=SUMIFS(B1:B8,A1:A8,{crit()},A1:A8,{crit()})', 'AVERAGEIFS': f'=AVERAGEIFS(B1:B8,A1:A8,{crit()})'}[fn]
@@ -294,7 +301,7 @@ def run_dates(ctx, bi):
             v = date_cell(rng)
             if v is not None:
                 ov.append((0, f'A{row}', v))
-        ov.append((0, 'G1', rng.choice(DAYS)))
+        ov.append((0, 'G1', rng.choice(days)))
         # the criterion cell sometimes holds exactly the moment of one of the cells, sometimes the midnight of its day
         pick = [v for (_, _, v) in ov if isinstance(v, dt.datetime)]
         ov.append((0, 'G2', rng.choice(pick) if pick and rng.random() < 0.6 else moment(rng)))
@@ -306,7 +313,7 @@ def run_dates(ctx, bi):
                       classify=classify, nontrivial=lambda case, outs: is_num(outs[0]) and outs[0] != 0, on_result=on_result)
     # a date or a time of day IN THE SUM RANGE (a timesheet): what it adds is not stated (Excel adds the serial number, the library passes
     # over it like SUM does) - but the conditional sum is a value, never a failure of the addition
-    ov = list(vals[-1]) + [(0, f'B{rng.randrange(1, 9)}', rng.choice(DAYS)), (0, f'B{rng.randrange(1, 9)}', dt.time(8, 30))]
+    ov = list(vals[-1]) + [(0, f'B{rng.randrange(1, 9)}', rng.choice(days)), (0, f'B{rng.randrange(1, 9)}', dt.time(8, 30))]
     for a in forms:
         f = cells[a]
         if not f.startswith(('=SUMIF(', '=SUMIFS(')):
